@@ -48,7 +48,7 @@ pub enum ArxmlEvent<'a> {
     Comment(&'a [u8]),
     EndOfFile,
 }
-pub struct ArxmlLexer<'a> { pub buffer: &'a [u8], pub opaque: u64 }
+pub struct ArxmlLexer<'a> { pub buffer: &'a [u8], pub bufpos: usize, pub opaque: u64 }
 // vocabulary of the lexer contract (defined in unit lexer): uninterpreted here
 pub uninterp spec fn nl(s: Seq<u8>) -> nat;
 impl<'a> ArxmlLexer<'a> {
@@ -80,6 +80,21 @@ pub fn vx_new_weak() -> (r: WeakElement) { unimplemented!() }
 pub fn vx_wrap(element: ElementRaw, weak: &WeakElement) -> (r: Element)
     ensures name_of(r) == element.elemname, type_of(r) == element.elemtype, content_of(r) == element.content@
 { unimplemented!() }
+#[verifier::external_body]
+pub fn vx_path_empty() -> (r: VxPath) { unimplemented!() }
+// ElementType::ROOT lies inside the tables (closed fact, part of `ground lib tables_modes`)
+#[verifier::external_body]
+pub fn vx_root_type() -> (r: ElementType) ensures r.typ < n_dt() { unimplemented!() }
+// ArxmlLexer::new: unit lexer proves that the fresh lexer satisfies its invariant (for buffers up to isize::MAX bytes, which every slice is)
+#[verifier::external_body]
+pub fn vx_lexer_new<'b>(buffer: &'b [u8], filename: PathBuf) -> (r: ArxmlLexer<'b>) ensures r.inv(), r.buffer == buffer { unimplemented!() }
+impl<'a> ArxmlParser<'a> {
+    // parse_file_header sets the file version from the schema location; `strict` is not touched (frame scan F4)
+    #[verifier::external_body]
+    pub fn parse_file_header(&mut self, attributes: &SmallVecAttr) -> (r: Result<(), AutosarDataError>)
+        ensures final(self).strict == old(self).strict
+    { unimplemented!() }
+}
 #[verifier::external_body]
 pub fn vx_path_clone(p: &VxPath) -> (r: VxPath) { unimplemented!() }
 #[verifier::external_body]
@@ -135,6 +150,18 @@ NAME_BLOCK = (r'let sub_element_inner = sub_element\.0\.read\(\);\s*if let Some\
               r'\s*let mut new_path = String::with_capacity\(path\.len\(\) \+ name_string\.len\(\) \+ 1\);\s*new_path\.push_str\(&path\);\s*new_path\.push\(\'/\'\);\s*new_path\.push_str\(name_string\);'
               r'\s*path = Cow::from\(new_path\.clone\(\)\);\s*self\.identifiables\.push\(\(new_path, wrapped_element\.downgrade\(\)\)\);\s*\}')
 REF_BLOCK = (r'if let CharacterData::String\(refpath\) = &value \{\s*self\.references\.push\(\(refpath\.to_owned\(\), wrapped_element\.downgrade\(\)\)\);\s*\}')
+
+ROOT_ELEMENT = (r'let new_element = ElementRaw \{\s*parent: ElementOrModel::None,\s*elemname: ElementName::Autosar,\s*elemtype: ElementType::ROOT,\s*content: SmallVec::new\(\),\s*attributes,\s*'
+                r'file_membership: HashSet::with_capacity\(0\),\s*comment: stored_comment,\s*\};')
+R43 = [
+    (r'ArxmlParserError::\w+ \{[^{}]*\}', lambda m: 'ArxmlParserError::VxOther(0)', 'R36'),
+    (r'ArxmlLexer::new\(self\.buffer, self\.filename\.clone\(\)\)', lambda m: 'vx_lexer_new(self.buffer, self.filename.clone())', 'R43'),
+    (ROOT_ELEMENT, lambda m: 'let new_element = ElementRaw { elemname: ElementName::Autosar, elemtype: vx_root_type(), content: Vec::new(), attributes, comment: stored_comment };', 'R43'),
+    (r'ElementType::ROOT', lambda m: 'vx_root_type()', 'R29'),
+    (r'Cow::from\(""\)', lambda m: 'vx_path_empty()', 'R43'),
+    (r'Some\(String::from_utf8_lossy\(comment_bytes\)\.into\(\)\)', lambda m: 'vx_comment(comment_bytes)', 'R42'),
+    (r'while let ArxmlEvent::Comment\(comment_bytes\) = token \{', lambda m: 'loop { let comment_bytes = match token { ArxmlEvent::Comment(vx_b) => vx_b, _ => { break; } };', 'R43'),
+]
 
 R42 = [
     (r'ArxmlParserError::\w+ \{[^{}]*\}', lambda m: 'ArxmlParserError::VxOther(0)', 'R36'),
@@ -235,14 +262,20 @@ def make_unit(repo_dir):
     }
 }'''),
                         ])
-    u = Unit(name='parseelem', prop='C08', spec=spec, fns=[fn],
+    root = FnSpec('parse_arxml', F, impl=IMPL_P, ret='r', body_sub=R43, sig_sub=[(r'pub\(crate\) fn', 'pub fn')],
+                  ensures=['final(self).strict == old(self).strict',
+                           'old(self).strict ==> (r matches Ok(e) ==> name_of(e) == ElementName::Autosar && node_ok(content_of(e), type_of(e), final(self).fileversion as u32))'],
+                  loops={0: dict(invariant=['lexer.inv()', 'self.strict == old(self).strict'], decreases='lexer.measure() + (if token is Comment { 1int } else { 0int })')},
+                  proofs=[dict(after=r'let mut token = self\.next\(&mut lexer\)\?;', text='proof { axiom_measure_nonneg(&lexer); }'),
+                          dict(at='loop_end', loop=0, text='proof { axiom_measure_nonneg(&lexer); }')])
+    u = Unit(name='parseelem', prop='C08', spec=spec, fns=[fn, root],
              wrap={IMPL_P: "impl<'a> ArxmlParser<'a>", lookups.IMPL_ET: 'impl ElementType', lookups.IMPL_GT: 'impl GroupType'},
              dropped=['the element graph: `raw_element.wrap()` and the write guard are replaced by working on the ElementRaw value and wrapping it at the end (vx_wrap); ElementRaw is {elemname, elemtype, content: Vec, attributes, comment}; Cow<str> path is opaque',
                       'block-level leaves (R42): SHORT-NAME path bookkeeping (vx_register_name), reference registration (vx_register_reference), comment text (vx_comment); error payloads opaque (R36)',
                       'callees are leaves with the contracts proved in units lexer / elemcheck / valueparse / lookups; the lexer vocabulary (inv, measure, same_buf, nl) is uninterpreted',
                       'ASSUMED frame: parse_attribute_text and parse_character_data leave strict / fileversion unchanged (justified by the syntactic frame scan: strict assigned only in new, fileversion only in new / parse_file_header)'])
     # leaves
-    for name in ('ArxmlParser.next', 'ArxmlParser.error', 'optional_error'):
+    for name in ('ArxmlParser.next', 'ArxmlParser.error', 'optional_error', 'verify_end_of_input'):
         u.leaves.append((pf[name], 'lexer'))
     pat = copy.copy(pf['parse_attribute_text'])
     pat.requires = ['elemtype.typ < n_dt()']
